@@ -69,6 +69,16 @@ func Observe(qf qframe.QFrame) (Table, error) {
 	if len(names) != len(typs) {
 		return Table{}, fmt.Errorf("ColumnNames has %d entries, ColumnTypes %d", len(names), len(typs))
 	}
+	// the by-name observers agree with the positional ones: exactly the listed columns are reachable by name
+	tm := qf.ColumnTypeMap()
+	if len(tm) != len(names) {
+		return Table{}, fmt.Errorf("ColumnNames lists %q but ColumnTypeMap has %d entries: %v", names, len(tm), tm)
+	}
+	for ci, name := range names {
+		if ty, ok := tm[name]; !ok || ty != typs[ci] || !qf.Contains(name) {
+			return Table{}, fmt.Errorf("column %q (%s) of ColumnNames/ColumnTypes: ColumnTypeMap has %v (%v), Contains %v", name, typs[ci], ty, ok, qf.Contains(name))
+		}
+	}
 	t := Table{Cols: make([]Col, len(names))}
 	for ci, name := range names {
 		c := Col{Name: name, Kind: KindOf(string(typs[ci]))}
